@@ -1023,6 +1023,26 @@ func (b *bitstream) readN(n uint64) ([]byte, error) {
 		return nil, nil
 	}
 
+	if n > maxReadAhead {
+		// A declared length this large is not trusted with an allocation of its size
+		// before the input has delivered the bytes: the buffer grows as data arrives.
+		if n > math.MaxInt64 {
+			return nil, &UnexpectedEOFError{b.pos}
+		}
+		var buf bytes.Buffer
+		actual, err := io.CopyN(&buf, b.in, int64(n))
+		b.pos += uint64(actual)
+
+		if err == io.EOF {
+			return nil, &UnexpectedEOFError{b.pos}
+		}
+		if err != nil {
+			return nil, &IOError{err}
+		}
+
+		return buf.Bytes(), nil
+	}
+
 	bs := make([]byte, n)
 	actual, err := io.ReadFull(b.in, bs)
 	b.pos += uint64(actual)
@@ -1036,6 +1056,10 @@ func (b *bitstream) readN(n uint64) ([]byte, error) {
 
 	return bs, nil
 }
+
+// maxReadAhead is the largest value length for which readN allocates the whole
+// buffer before reading.
+const maxReadAhead = 1 << 16
 
 // Read1 reads the next byte of input from the underlying stream, returning
 // an UnexpectedEOFError if it's an EOF.
